@@ -6,6 +6,8 @@ extern template void run<float> ();
 extern template void run<double> ();
 } // namespace c06
 
+void c06_dirty_stage (); // c06_dirty.cpp
+
 int main (int argc, char** argv)
 {
     vf::R ().property = "C06";
@@ -14,6 +16,7 @@ int main (int argc, char** argv)
     vf::R ().assume ("accuracy constant c = 8 in c*cond_inf(M)*eps*||M^-1||_inf fixed a priori (DESIGN.md C06), norms are max row sums of the exact matrices");
     c06::run<float> ();
     c06::run<double> ();
+    c06_dirty_stage ();
     vf::R ().sample ("Matrix33f [1,2,0; 0,1,2; 2,0,1]*2^-1: det(A)=9, |det(M)|=9/8 >= 1 branch; *2^-2: 9/64 < 1 branch");
     vf::R ().sample ("Matrix33 [1,2,-1; 2,4,-2; 0,1,1] (row1 = 2*row0): singular, Gauss-Jordan must hit an exact zero pivot -> identity");
     vf::R ().sample ("Matrix44 affine [1,0,1,0; 0,1,1,0; 1,1,0,0; 1,-1,2,1]: fast path; with M[3][3]=1+eps: general (Gauss-Jordan) path, results agree to the bound");
